@@ -13,6 +13,9 @@ import sys
 
 FIXES = {  # subject prefix -> properties whose check must fire when the fix is reverted
     "fix: config.set records": ["C17"],
+    "fix: select results": ["C13"],
+    "fix: reshape names": ["C13"],
+    "fix: DataFrame tokens cover": ["C12"],
     "fix: eye builds its blocks": ["C34"],
     "fix: read_text keeps the last line": ["C50"],
     "fix: delayed optimize flattens": ["C09"],
